@@ -817,19 +817,25 @@ def _scaling_probe(B, name, data, max_nodes):
     import cbor2
     t = _tree(data)
     arrays = [p for p in _paths(t) if isinstance(_get(t, p), list) and len(_get(t, p)) >= 1]
-    probes = [("array", p) for p in arrays[:max_nodes]] + [("payloads", ())]
+    # "array": the container's own (well-formed) elements repeated; "array-of-integers": N copies of the integer 0 - items that cost next to nothing (they are
+    # rejected or skipped at once), so that what the parser does with the CONTAINER itself (decode, regroup, copy, index) is what is measured
+    probes = [(k_, p) for p in arrays[:max_nodes] for k_ in ("array", "array-of-integers")] + [("payloads", ())]
     for kind, path in probes:
+        top = 64000 if kind != "array-of-integers" else 128000
+
         def build(n):
             if kind == "array":
                 elems = _get(t, path)
                 return _encode(_rebuild(t, path, (elems * (n // len(elems) + 1))[:n]))
+            if kind == "array-of-integers":
+                return _encode(_rebuild(t, path, [0] * n))
             v = cbor2.loads(data)
             m = dict(v.value)
             for i in range(n):
                 m[f"#p{i}"] = b"x"
             return cbor2.dumps(cbor2.CBORTag(v.tag, m))
         n, t1 = 2000, 0.0
-        while n <= 64000:
+        while n <= top:
             try:
                 small = build(n)
             except Exception:  # noqa: BLE001
@@ -931,8 +937,9 @@ def bounded(ctx):
                 B.fail("length-inflation-fails-cleanly", {"kind": "bytes", "hex": m.hex(), "envelope": name}, msg)
         for i, why in _memory_probe(inflated):
             B.fail("length-inflation-memory-bounded", {"kind": "bytes", "hex": inflated[i].hex() if i >= 0 else "", "envelope": name}, why)
-    for name, data in envs[:1] + envs[-1:] if quick else envs:
-        _scaling_probe(B, name, data, 14 if quick else 200)
+    # quick: the first sample envelope and the largest one (most containers), every array node of each
+    for name, data in ([envs[0], max(envs, key=lambda e: len(e[1]))] if quick else envs):
+        _scaling_probe(B, name, data, 120 if quick else 400)
     for depth in ((10, 50, 90, 200, 600) if quick else (10, 50, 90, 120, 200, 400, 600, 1000)):
         B.case(("nest", depth))
         msg = parse_cleanly(_nested_run_sequence(depth))
